@@ -16,7 +16,7 @@ structure Good (b : B) (dt : DataType) (n : Bool) (md : Metadata) : Prop where
 theorem Good.push {ext : Ext} {x : SVal} {b b' : B} {dt n md} (hg : Good b dt n md) (hraw : noRaw x = true)
     (h : push ext b x = .ok b') : Good b' dt n md :=
   have ht := push_takeRest ext x b b' h
-  ⟨(push_appends ext x b b' (noRaw_rawOK x hraw) hg.wf hg.safe h).1, Safe.of_takeRest ht hg.safe,
+  ⟨(push_appends ext x b b' hg.wf hg.safe h).1, Safe.of_takeRest ht hg.safe,
     Shape.of_takeRest ht hg.shape, hg.tot⟩
 
 theorem Good.pushScalar {ext : Ext} {x : SVal} {b b' : B} {dt n md} (hg : Good b dt n md)
